@@ -228,6 +228,9 @@ def run(chk):
         emitters += cfg.load_functions(chk.facts(unit, funcs=rex))
     relocrules.target_pair(chk, emitters)
     relocrules.payload_live(chk, emitters)
+    relocrules.source_start(chk, emitters)
+    fxh = chk.facts("asmjit/x86/x86assembler.cpp", funcs=r"asmjit::x86::[a-z_0-9]+$")
+    relocrules.absolute_location_guard(chk, emitters + [g for g in cfg.load_functions(fxh) if g.file.endswith("x86assembler.cpp")])
     relocrules.src_address(chk, rb, floor=1)
     relocrules.target_section_used(chk, rb)
     relocrules.written_buffer_sized(chk, rb, unit_fns)
